@@ -72,7 +72,7 @@ type Def struct {
 }
 
 type GhostVar struct {
-	Pkg, Name, Type string
+	Pkg, Name, Type, Template string
 }
 
 type ContractSet struct {
@@ -135,7 +135,7 @@ func (cs *ContractSet) parseFile(pkgPath, fileName string, f *ast.File, lineOf f
 				if len(f) != 3 {
 					return fmt.Errorf("%s:%d: ghostvar <name> <type>", fileName, line)
 				}
-				cs.Ghosts = append(cs.Ghosts, &GhostVar{Pkg: pkgPath, Name: f[1], Type: f[2]})
+				cs.Ghosts = append(cs.Ghosts, &GhostVar{Pkg: pkgPath, Name: f[1], Type: f[2], Template: section})
 				continue
 			case "section":
 				section = strings.TrimSpace(txt[7:])
@@ -588,6 +588,11 @@ func (cs *ContractSet) instantiate(builderPkg, targetPkg string, tags map[string
 		n.Text = ren(a.Text)
 		n.Node = nil
 		cs.Axioms = append(cs.Axioms, &n)
+	}
+	for _, g := range append([]*GhostVar(nil), cs.Ghosts...) {
+		if g.Pkg == builderPkg && tagsMatch(g.Template, tags) {
+			cs.Ghosts = append(cs.Ghosts, &GhostVar{Pkg: targetPkg, Name: g.Name, Type: g.Type})
+		}
 	}
 	var defs []*Def
 	for _, d := range cs.Defs {
